@@ -3,6 +3,9 @@
 use super::*;
 use crate::blitter::*;
 use sw_composite::*;
+#[path = "common_uf.rs"]
+mod uf;
+use uf::*;
 
 // ------------------------------------------------------------------ uninterpreted functions
 // Memo tables give "arbitrary but fixed function" semantics: the first call with given arguments picks an
@@ -12,24 +15,6 @@ use sw_composite::*;
 //  * `lerp_uf` / `alpha_lerp_uf` replace sw-composite's kernels (kani::stub) in the row-proc harnesses; they are
 //    arbitrary functions constrained only by the kernel contracts that are PROVED on the real kernels in
 //    verif_blitter.rs (K.alpha_lerp_zero).  This is the modular step: callers see the callee's contract.
-pub const UF_CAP: usize = 6;
-pub struct Uf { n: usize, tab: [([u32; 4], u32); UF_CAP] }
-impl Uf {
-    pub const fn new() -> Uf { Uf { n: 0, tab: [([0; 4], 0); UF_CAP] } }
-    pub fn call(&mut self, args: [u32; 4]) -> u32 {
-        let mut i = 0;
-        while i < UF_CAP {
-            let t = &self.tab[i].0;
-            if i < self.n && t[0] == args[0] && t[1] == args[1] && t[2] == args[2] && t[3] == args[3] { return self.tab[i].1; }
-            i += 1;
-        }
-        assert!(self.n < UF_CAP, "uninterpreted-function table capacity");
-        let r: u32 = kani::any();
-        self.tab[self.n] = (args, r);
-        self.n += 1;
-        r
-    }
-}
 pub static mut UF_BLEND: Uf = Uf::new();
 pub static mut UF_LERP: Uf = Uf::new();
 pub static mut UF_ALERP: Uf = Uf::new();
@@ -933,3 +918,114 @@ fn k_apply_path_no_residue() {
     kani::cover!(n0 == 3);
 }
 
+
+// ------------------------------------------------------------------ dispatch (C03 #1, #2)
+macro_rules! check_mode {
+    ($mode:ident, $s:expr, $d:expr) => {{
+        let mut dst = [$d];
+        let f = build_blend_proc::<BlendRow>(BlendMode::$mode);
+        f(&[$s], &mut dst);
+        assert!(dst[0] == <blend::$mode as blend::Blend>::blend($s, $d), concat!("BlendMode::", stringify!($mode), " dispatches to sw_composite::blend::", stringify!($mode)));
+    }};
+}
+fn pmv(p: u32) -> bool { let a = p >> 24; ((p >> 16) & 0xff) <= a && ((p >> 8) & 0xff) <= a && (p & 0xff) <= a }
+fn blend_dispatch_on(s: u32, d: u32) -> [u32; 28] {
+    check_mode!(Dst, s, d); check_mode!(Src, s, d); check_mode!(Clear, s, d); check_mode!(SrcOver, s, d); check_mode!(DstOver, s, d); check_mode!(SrcIn, s, d); check_mode!(DstIn, s, d); check_mode!(SrcOut, s, d); check_mode!(DstOut, s, d); check_mode!(SrcAtop, s, d); check_mode!(DstAtop, s, d); check_mode!(Xor, s, d); check_mode!(Add, s, d); check_mode!(Screen, s, d); check_mode!(Overlay, s, d); check_mode!(Darken, s, d); check_mode!(Lighten, s, d); check_mode!(ColorDodge, s, d); check_mode!(ColorBurn, s, d); check_mode!(HardLight, s, d); check_mode!(SoftLight, s, d); check_mode!(Difference, s, d); check_mode!(Exclusion, s, d); check_mode!(Multiply, s, d); check_mode!(Hue, s, d); check_mode!(Saturation, s, d); check_mode!(Color, s, d); check_mode!(Luminosity, s, d);
+    [<blend::Dst as blend::Blend>::blend(s, d), <blend::Src as blend::Blend>::blend(s, d), <blend::Clear as blend::Blend>::blend(s, d), <blend::SrcOver as blend::Blend>::blend(s, d), <blend::DstOver as blend::Blend>::blend(s, d), <blend::SrcIn as blend::Blend>::blend(s, d), <blend::DstIn as blend::Blend>::blend(s, d), <blend::SrcOut as blend::Blend>::blend(s, d), <blend::DstOut as blend::Blend>::blend(s, d), <blend::SrcAtop as blend::Blend>::blend(s, d), <blend::DstAtop as blend::Blend>::blend(s, d), <blend::Xor as blend::Blend>::blend(s, d), <blend::Add as blend::Blend>::blend(s, d), <blend::Screen as blend::Blend>::blend(s, d), <blend::Overlay as blend::Blend>::blend(s, d), <blend::Darken as blend::Blend>::blend(s, d), <blend::Lighten as blend::Blend>::blend(s, d), <blend::ColorDodge as blend::Blend>::blend(s, d), <blend::ColorBurn as blend::Blend>::blend(s, d), <blend::HardLight as blend::Blend>::blend(s, d), <blend::SoftLight as blend::Blend>::blend(s, d), <blend::Difference as blend::Blend>::blend(s, d), <blend::Exclusion as blend::Blend>::blend(s, d), <blend::Multiply as blend::Blend>::blend(s, d), <blend::Hue as blend::Blend>::blend(s, d), <blend::Saturation as blend::Blend>::blend(s, d), <blend::Color as blend::Blend>::blend(s, d), <blend::Luminosity as blend::Blend>::blend(s, d)]
+}
+// @ob id=K.build_blend_proc props=C03,C15 kind=bounded:1-concrete-pixel-pair tier=quick timeout=900 fns=build_blend_proc,BlendRow::build
+// @+ desc="build_blend_proc::<BlendRow>: each of the 28 BlendMode values yields a row proc that computes sw_composite::blend::<same name>::blend(src,dst); decided on one concrete premultiplied pixel pair on which the 28 reference blends are pairwise different (asserted), so any swapped or missing arm is caught (symbolic pixels through 28 blend bodies, 7 of them with wide division, do not finish in CBMC)"
+#[kani::proof]
+#[kani::unwind(30)]
+fn k_build_blend_proc() {
+    let a = blend_dispatch_on(0xc0804020, 0xa0209060);
+    let mut i = 0;
+    while i < 28 {
+        let mut j = i + 1;
+        while j < 28 {
+            assert!(a[i] != a[j], "the probe pixel pair separates every pair of blend modes");
+            j += 1;
+        }
+        i += 1;
+    }
+    kani::cover!(true);
+}
+
+// @ob id=K.blender_build props=C03 kind=bounded:len<=2 tier=quick timeout=600 fns=BlendRowMask::build,BlendRowMaskClip::build
+// @+ desc="the masked and the masked+clipped row-proc families are the instantiations of blend_row_mask / blend_row_mask_clip (for any T): same result as calling those directly"
+#[kani::proof]
+#[kani::unwind(8)]
+#[kani::stub(sw_composite::lerp, lerp_uf)]
+#[kani::stub(sw_composite::alpha_lerp, alpha_lerp_uf)]
+fn k_blender_build() {
+    let src: [u32; 2] = kani::any();
+    let mask: [u8; 2] = kani::any();
+    let clip: [u8; 2] = kani::any();
+    let old: [u32; 2] = kani::any();
+    uf_reset();
+    let mut d1 = old; let mut d2 = old;
+    (<BlendRowMask as Blender>::build::<FnBlend>())(&src, &mask, &mut d1);
+    blend_row_mask::<FnBlend>(&src, &mask, &mut d2);
+    assert!(d1[0] == d2[0] && d1[1] == d2[1], "BlendRowMask::build::<T>() is blend_row_mask::<T>");
+    let mut d3 = old; let mut d4 = old;
+    (<BlendRowMaskClip as Blender>::build::<FnBlend>())(&src, &mask, &clip, &mut d3);
+    blend_row_mask_clip::<FnBlend>(&src, &mask, &clip, &mut d4);
+    assert!(d3[0] == d4[0] && d3[1] == d4[1], "BlendRowMaskClip::build::<T>() is blend_row_mask_clip::<T>");
+    kani::cover!(mask[0] != 0 && clip[1] != 0);
+}
+
+fn choose_blitter_case(with_mask: bool, clip_kind: u8, srcover: bool) {
+    let shader = NopShader;
+    let maskbuf = [0u8; 6];
+    let mut clip_stack: Vec<Clip> = Vec::new();
+    if clip_kind == 1 { clip_stack.push(Clip { rect: surface_rect(), mask: None }); }
+    if clip_kind == 2 { clip_stack.push(Clip { rect: surface_rect(), mask: None }); clip_stack.push(Clip { rect: surface_rect(), mask: Some(vec![0u8; 7]) }); }
+    let mut dest = [0u32; 6];
+    let dest_ptr = dest.as_ptr() as usize;
+    let db = any_rect(-1000, 1000);
+    let width: i32 = kani::any();
+    kani::assume(width >= 0 && width <= 8);
+    let blend = if srcover { BlendMode::SrcOver } else { BlendMode::Xor };
+    let mut storage = ShaderBlitterStorage::None;
+    let clip_ptr = match clip_stack.last() { Some(Clip { rect: _, mask: Some(m) }) => m.as_ptr() as usize, _ => 0 };
+    {
+        let _b = DrawTarget::choose_blitter(if with_mask { Some(&maskbuf[..]) } else { None }, &clip_stack, &mut storage, &shader, blend, &mut dest[..], db, width);
+    }
+    let sw = db.max.x - db.min.x;
+    match (&storage, with_mask, clip_kind == 2, srcover) {
+        (ShaderBlitterStorage::ShaderClipMaskBlitter(b), true, true, true) => {
+            assert!(b.x == db.min.x && b.y == db.min.y && b.dest_stride == sw && b.tmp.len() == width as usize && b.dest.as_ptr() as usize == dest_ptr && b.dest.len() == 6, "origin, stride, scratch row, destination");
+            assert!(b.clip.as_ptr() as usize == clip_ptr && b.clip.len() == 7 && b.clip_stride == width, "clip = top entry's mask, indexed with the surface width");
+        }
+        (ShaderBlitterStorage::ShaderClipBlendMaskBlitter(b), true, true, false) => {
+            assert!(b.x == db.min.x && b.y == db.min.y && b.dest_stride == sw && b.tmp.len() == width as usize && b.dest.as_ptr() as usize == dest_ptr && b.dest.len() == 6, "origin, stride, scratch row, destination");
+            assert!(b.clip.as_ptr() as usize == clip_ptr && b.clip.len() == 7 && b.clip_stride == width, "clip = top entry's mask, indexed with the surface width");
+            assert!(b.blend_fn as usize == build_blend_proc::<BlendRowMaskClip>(blend) as usize, "row proc of the requested mode");
+        }
+        (ShaderBlitterStorage::ShaderMaskBlitter(b), true, false, true) => {
+            assert!(b.x == db.min.x && b.y == db.min.y && b.dest_stride == sw && b.tmp.len() == width as usize && b.dest.as_ptr() as usize == dest_ptr && b.dest.len() == 6, "origin, stride, scratch row, destination");
+        }
+        (ShaderBlitterStorage::ShaderBlendMaskBlitter(b), true, false, false) => {
+            assert!(b.x == db.min.x && b.y == db.min.y && b.dest_stride == sw && b.tmp.len() == width as usize && b.dest.as_ptr() as usize == dest_ptr && b.dest.len() == 6, "origin, stride, scratch row, destination");
+            assert!(b.blend_fn as usize == build_blend_proc::<BlendRowMask>(blend) as usize, "row proc of the requested mode");
+        }
+        (ShaderBlitterStorage::ShaderBlendBlitter(b), false, _, _) => {
+            assert!(b.x == db.min.x && b.y == db.min.y && b.dest_stride == sw && b.tmp.len() == width as usize && b.dest.as_ptr() as usize == dest_ptr && b.dest.len() == 6, "origin, stride, scratch row, destination");
+            assert!(b.blend_fn as usize == build_blend_proc::<BlendRow>(blend) as usize, "row proc of the requested mode (SrcOver included)");
+        }
+        _ => assert!(false, "blitter variant is a function of (mask?, top clip entry has a mask?, blend == SrcOver) only"),
+    }
+    kani::cover!(width == 3);
+}
+// @ob id=K.choose_blitter props=C03,C05,C14 kind=complete tier=quick timeout=900 fns=DrawTarget::choose_blitter
+// @+ desc="choose_blitter, all 12 combinations of (mask?, clip stack: empty | rect only | path mask on top, SrcOver?): the variant is a function of (mask?, TOP clip entry has a mask?, SrcOver?) only (a mask-less clip entry does not change the blitter); x,y = dest_bounds.min, dest_stride = dest_bounds.width, tmp.len() = surface width, clip = the top entry's mask with clip_stride = surface width, row proc = build_blend_proc(mode); dest_bounds symbolic"
+#[kani::proof]
+#[kani::unwind(9)]
+fn k_choose_blitter() {
+    choose_blitter_case(true, 0, true); choose_blitter_case(true, 0, false);
+    choose_blitter_case(true, 1, true); choose_blitter_case(true, 1, false);
+    choose_blitter_case(true, 2, true); choose_blitter_case(true, 2, false);
+    choose_blitter_case(false, 0, true); choose_blitter_case(false, 0, false);
+    choose_blitter_case(false, 1, true); choose_blitter_case(false, 1, false);
+    choose_blitter_case(false, 2, true); choose_blitter_case(false, 2, false);
+}
